@@ -534,8 +534,17 @@ func ruleP1(r *Run) {
 		return nil, true
 	}
 	leak := ""
+	surplus := ""
 	w.Exit = func(w *Walk, ps PState, kind flowKind, at ast.Node) {
 		st := ps.(*p1State)
+		// a Release that runs although no permit was taken: registered by defer BEFORE Acquire, it also runs on the exit
+		// where Acquire failed (or was never reached) and gives back the permit of a call that is still running
+		if st.deferRel && st.acquired != 1 && surplus == "" {
+			surplus = "the end of the function"
+			if at != nil {
+				surplus = p.Rel(at.Pos())
+			}
+		}
 		if st.acquired == 1 && !st.deferRel && leak == "" {
 			leak = "the end of the function"
 			if at != nil {
@@ -546,6 +555,9 @@ func ruleP1(r *Run) {
 	w.Run(fd.Body, &p1State{})
 	if len(w.Undecided) == 0 {
 		r.Check(leak == "", "no exit of ConcurrentLimiter.Handler keeps the permit", fd.Pos(), "every exit after a successful Acquire runs Release", "ConcurrentLimiter.Handler can leave (at "+leak+") after Acquire succeeded and before Release is registered with defer: the permit is never given back; after max such requests the limiter admits nothing any more")
+	}
+	if len(w.Undecided) == 0 {
+		r.Check(surplus == "", "no exit of ConcurrentLimiter.Handler releases a permit it did not take", fd.Pos(), "Release is registered only after Acquire has succeeded", "ConcurrentLimiter.Handler can leave (at "+surplus+") with Release registered although Acquire did not return nil: the waiter that gave up releases a permit it never took - the token of a request that is still running - and every such waiter lets one more request than configured run at once")
 	}
 	key := "permit held around next in ConcurrentLimiter.Handler"
 	switch {
